@@ -160,6 +160,66 @@ def _check_pure_dict(a):
   return None
 
 
+def _odd_key_trees():
+  """nested dicts whose keys are unusual but legal strings (empty, blank, digits, containing '.'): the separator '/' or '|'
+  does not occur in any of them"""
+  keys = ['w', 'layer.0', '7', ' ', '']
+  leaves = [0, 'x']
+  level1 = [{k: v} for k in keys for v in leaves] + [{a: 0, b: 'x'} for a, b in itertools.combinations(keys, 2)]
+  out = list(level1)
+  for k in keys:
+    for sub in level1[::3]:
+      out.append({k: sub})
+      out.append({k: sub, 'w' if k != 'w' else '7': 1})
+  for k1, k2 in itertools.product(keys, repeat=2):
+    out.append({k1: {k2: {'': 5}}})
+    out.append({k1: {k2: {}}, 'z': 1})
+  return out
+
+
+def _check_type_split():
+  """split_state / filter_state with Variable TYPES as filters, in every order: first match wins (a subclass leaf goes to an
+  earlier superclass filter)"""
+  from flax import nnx
+  import jax.numpy as jnp
+  n = 0
+  leaves = {('a', 'w'): nnx.VariableState(type=nnx.Param, value=1), ('a', 'lora'): nnx.VariableState(type=nnx.LoRAParam, value=2),
+            ('b', 'mean'): nnx.VariableState(type=nnx.BatchStat, value=3), ('b', 'cache'): nnx.VariableState(type=nnx.Cache, value=4),
+            ('c',): nnx.VariableState(type=nnx.Intermediate, value=5)}
+  state = nnx.State.from_flat_path(leaves) if hasattr(nnx.State, 'from_flat_path') else nnx.State(leaves)
+  types = [nnx.Variable, nnx.Param, nnx.LoRAParam, nnx.BatchStat, nnx.Cache]
+  for r in (1, 2, 3):
+    for fs in itertools.permutations(types, r):
+      for tail in ((), (...,)):
+        filters = fs + tail
+        n += 1
+        want = [dict() for _ in filters]
+        rest = {}
+        for path, v in leaves.items():
+          for i, f in enumerate(filters):
+            if f is ... or issubclass(v.type, f):
+              want[i][path] = v.value
+              break
+          else:
+            rest[path] = v.value
+        try:
+          got = nnx.split_state(state, *filters) if not rest else None
+          if got is None:
+            try:
+              nnx.split_state(state, *filters)
+              return n, f'split_state{filters}: leaves {sorted(rest)} match no filter but no error was raised'
+            except ValueError:
+              pass
+            got = nnx.filter_state(state, *filters)
+        except Exception as e:  # noqa
+          return n, f'split_state / filter_state{filters} raised {e!r}'[:300]
+        got = (got,) if isinstance(got, nnx.State) else tuple(got)
+        got_flat = [{p: v.value for p, v in nnx.to_flat_state(g)} for g in got]
+        if got_flat != want:
+          return n, f'filters {tuple(getattr(f, "__name__", f) for f in filters)}: groups {got_flat}, first match gives {want}'
+  return n, None
+
+
 def run(tier, seed):
   depth = 2 if tier == 'quick' else 3
   trees = [t for t in _trees(depth) if isinstance(t, dict)]
@@ -183,6 +243,26 @@ def run(tier, seed):
     if msg:
       fails.append(dict(inputs=dict(tree=repr(t), api='path_aware_map'), observed=msg[:400], violated='path-aware-map'))
       break
+  for t in (_odd_key_trees() if not fails else ()):
+    for keep, sep, which in itertools.product((False, True), (None, '/', '|'), ('traverse_util', 'traversals')):
+      cases += 1
+      try:
+        msg = _check(t, keep, sep, False, which)
+      except Exception as e:  # noqa
+        msg = f'{which}: raised {e!r}'
+      if msg:
+        fails.append(dict(inputs=dict(tree=repr(t), keep_empty_nodes=keep, sep=sep, frozen=False, api=which), observed=msg[:400], violated='inverse-law'))
+        break
+    if fails:
+      break
+  if not fails:
+    try:
+      n, msg = _check_type_split()
+    except Exception as e:  # noqa
+      n, msg = 1, f'raised {e!r}'
+    cases += n
+    if msg:
+      fails.append(dict(inputs=dict(api='nnx.split_state / filter_state by Variable types'), observed=msg[:400], violated='first-match-partition'))
   if not fails:
     # State algebra on pairs of small nested states, including a sub-state on one side where the other has a leaf
     pool = [{'a': 1}, {'a': 1, 'b': 2}, {'a': {'x': 1, 'y': 2}, 'b': 3}, {'a': {'x': 5}}, {'a': 7, 'c': {'z': 1}}, {'a': {'x': {'deep': 1, 'other': 2}}, 'out': 3},
@@ -205,11 +285,13 @@ def run(tier, seed):
       if msg:
         fails.append(dict(inputs=dict(a=repr(a), b=repr(b), api='nnx.State diff/merge'), observed=msg[:400], violated='state-algebra'))
         break
-  return dict(name=NAME, cases=cases, distinct=len(trees), bound=f'all nested dicts of depth <= {depth}, <= 2 keys/level from {{a,b,c}}, leaves {{0,(),"x",{{}}}}; State diff/merge on 10 x 10 small nested states; replace_by_pure_dict with every subset of leaves',
+  return dict(name=NAME, cases=cases, distinct=len(trees), bound=f'all nested dicts of depth <= {depth}, <= 2 keys/level from {{a,b,c}}, leaves {{0,(),"x",{{}}}} + nested dicts over the keys {{w, layer.0, 7, blank, empty}} with separators / and |; split_state / filter_state by every ordered choice of <= 3 of 5 Variable types (+ ...); State diff/merge on 10 x 10 small nested states; replace_by_pure_dict with every subset of leaves',
               exhaustive=True, failures=fails[:2], error=None)
 
 
 def replay(inputs):
+  if inputs.get('api') == 'nnx.split_state / filter_state by Variable types':
+    return _check_type_split()[1] is None
   if inputs.get('api') == 'nnx to_pure_dict / replace_by_pure_dict':
     return _check_pure_dict(eval(inputs['a'])) is None
   if inputs.get('api') == 'nnx.State diff/merge':
